@@ -301,6 +301,7 @@ fn check_options(seq: &[(usize, usize)], first: &str) -> Result<(), String> {
     let text = format!("{} {}", seq.iter().map(|(o, v)| format!("{}({})", OPTS[*o].0, OPTS[*o].1[*v])).collect::<Vec<_>>().join(" "), first);
     let ts = proc_macro2::TokenStream::from_str(&text).map_err(|e| format!("lex: {}", e))?;
     crate::c15::HEARTBEAT.fetch_add(1, std::sync::atomic::Ordering::Relaxed);
+    crate::c15::set_current(&text, 4);
     let r = catch_unwind(AssertUnwindSafe(|| syn::parse2::<JoinInputDefault>(ts)));
     let parsed = match r {
         Err(_) => return Err(format!("parser panicked on `{}`", text)),
